@@ -18,6 +18,9 @@ def mk_project(ctx, plans=True, events=False, lock=True):
     os.makedirs(os.path.join(proj, "sub/inner"))
     ist = cmdrun.Store(ctx.ergo, ctx.go, root=os.path.join(proj, "sub/inner"))
     ist.exec(["--json", "new", "task"], b'{"title":"innermost"}')
+    # a project whose `.ergo` directory is there but still empty (`mkdir .ergo`, an init cut short): it is the nearest store for everything below it
+    os.makedirs(os.path.join(proj, "bare/.ergo"))
+    os.makedirs(os.path.join(proj, "bare/w"))
     d = st.dir
     data = open(os.path.join(d, "plans.jsonl"), "rb").read()
     if events:
@@ -71,8 +74,8 @@ def snapshot_via(st, cwd, dirargs):
 def discovery(ctx):
     root, proj, st = mk_project(ctx)
     try:
-        cwds = [proj, os.path.join(proj, "sub"), os.path.join(proj, "sub/deep"), os.path.join(proj, "nested/x/y"), os.path.join(proj, "nested")]
-        targets = cwds + [os.path.join(proj, ".ergo"), os.path.join(proj, "nested/.ergo")]
+        cwds = [proj, os.path.join(proj, "sub"), os.path.join(proj, "sub/deep"), os.path.join(proj, "nested/x/y"), os.path.join(proj, "nested"), os.path.join(proj, "bare/w")]
+        targets = cwds + [os.path.join(proj, ".ergo"), os.path.join(proj, "nested/.ergo"), os.path.join(proj, "bare"), os.path.join(proj, "bare/.ergo")]
         for cwd in cwds:
             for target in targets:
                 want_dir = expected_ergo(target)
